@@ -9,10 +9,13 @@ use std::{
 
 use serde_json::{Map, Value};
 
+pub const PROGRAM_EVENT_LIMIT: u64 = 20000;
+
 pub struct Log {
     seq: Cell<u64>,
     events: Cell<u64>,
     next_id: Cell<u64>,
+    prog_events: Cell<u64>,
     out: RefCell<BufWriter<File>>,
 }
 
@@ -22,6 +25,7 @@ impl Log {
             seq: Cell::new(first_seq),
             events: Cell::new(0),
             next_id: Cell::new(1),
+            prog_events: Cell::new(0),
             out: RefCell::new(BufWriter::with_capacity(1 << 20, File::create(path)?)),
         })
     }
@@ -35,9 +39,20 @@ impl Log {
 
     pub fn reset_ids(&self) {
         self.next_id.set(1);
+        self.prog_events.set(0);
+    }
+
+    /// More events in one program than any program can legitimately produce: the loops of the
+    /// recorder stop when this is true (a runaway stream must not fill the disk).
+    pub fn over(&self) -> bool {
+        self.prog_events.get() > PROGRAM_EVENT_LIMIT
     }
 
     pub fn ev(&self, v: Value) {
+        self.prog_events.set(self.prog_events.get() + 1);
+        if self.prog_events.get() > PROGRAM_EVENT_LIMIT + 16 {
+            return;
+        }
         let mut m = match v {
             Value::Object(m) => m,
             _ => Map::new(),
